@@ -34,7 +34,6 @@ RULE = ("full product of the listed domains; one case = one operator configurati
 ASSUMPTIONS = ["L1WaveletRecon only with a unitary wavelet operator (Haar, even shape), as the property states",
                "objective-gap tolerance 1e-5 relative (1e-4 for PDHG-based TV at the quick horizon)"]
 CHUNK = 4
-CASE_TIMEOUT = {"quick": 300, "thorough": 900}
 
 
 def bounds(tier):
